@@ -8,12 +8,24 @@ import (
 	"time"
 
 	tally "github.com/uber-go/tally/v4"
+	"github.com/uber-go/tally/v4/m3"
 )
 
 func init() { register("c09", "C09", "c09", suiteC09) }
 
+var c09Sanitize bool
+
 // one lock-step execution: n threads ask one scope for the same metric of one kind
 func runC09(c *Ctx, ch Chooser, kind string, cached bool, nThreads int, onSub bool, reps int) (trace []string) {
+	// half of the sampled runs use a name the (M3 default) sanitizer changes: probe and re-check must agree on the key
+	raw, clean := "m", "m"
+	if c09Sanitize {
+		o := m3.DefaultSanitizerOpts
+		worldSanitize = &o
+		defer func() { worldSanitize = nil }()
+		raw, clean = "m 1", "m_1"
+		trace = append(trace, "sanitized-name")
+	}
 	w := newWorld(cached, 0, 1, false)
 	var sc tally.Scope = w.root
 	prefix := ""
@@ -57,15 +69,15 @@ func runC09(c *Ctx, ch Chooser, kind string, cached bool, nThreads int, onSub bo
 				var m interface{}
 				switch kind {
 				case "counter":
-					ctr := sc.Counter("m")
+					ctr := sc.Counter(raw)
 					ctr.Inc(1)
 					m = ctr
 				case "gauge":
-					m = sc.Gauge("m")
+					m = sc.Gauge(raw)
 				case "timer":
-					m = sc.Timer("m")
+					m = sc.Timer(raw)
 				case "histogram":
-					m = sc.Histogram("m", tally.ValueBuckets{1, 2})
+					m = sc.Histogram(raw, tally.ValueBuckets{1, 2})
 				}
 				results[i] = append(results[i], m)
 			}
@@ -126,14 +138,14 @@ func runC09(c *Ctx, ch Chooser, kind string, cached bool, nThreads int, onSub bo
 	allocs := 0
 	if cached {
 		for _, e := range w.recC.log.Snapshot() {
-			if strings.HasPrefix(e.Kind, "alloc-") && e.Name == prefix+"m" {
+			if strings.HasPrefix(e.Kind, "alloc-") && e.Name == prefix+clean {
 				allocs++
 			}
 		}
 	}
 	tally.VerifReportOnce(w.root)
 	got, _ := w.delivered()
-	say(fmt.Sprintf("holds? %s %d %d %d", joinList(res), allocs, recorded, got[prefix+"m"]))
+	say(fmt.Sprintf("holds? %s %d %d %d", joinList(res), allocs, recorded, got[prefix+clean]))
 	d.Ask("end")
 	w.closer.Close()
 	return
@@ -145,12 +157,14 @@ func suiteC09(c *Ctx) {
 	n := c.N(200, 2000)
 	for i := 0; i < n; i++ {
 		r := c.Rng.Fork()
+		c09Sanitize = r.Bool()
 		tr := runC09(c, &randChooser{r: r}, kinds[i%4], r.Bool(), r.Range(2, 4), r.Bool(), r.Range(1, 2))
 		key := strings.Join(tr, " | ")
 		c.Cov.Eval(key, strings.Count(key, "missed") >= 2)
 		c.Cov.Schedules++
 		c.Cov.Traces++
 	}
+	c09Sanitize = false
 	for _, nt := range []int{2, 3} {
 		if nt == 3 && !c.Thorough() {
 			continue
